@@ -1494,6 +1494,19 @@ static void vnaproperty_free(vnaproperty_t *root)
 }
 
 
+/*
+ * _vnaproperty_free_tree: free a whole tree without allocating
+ *   @rootptr: address of root property pointer
+ *
+ * Same effect as vnaproperty_delete(rootptr, ".") but cannot fail:
+ * used on free paths, where running out of memory must not leak.
+ */
+void _vnaproperty_free_tree(vnaproperty_t **rootptr)
+{
+    vnaproperty_free(*rootptr);
+    *rootptr = NULL;
+}
+
 /***********************************************************************
  * External API
  **********************************************************************/
